@@ -217,6 +217,8 @@ B("C17", "n-samples-squared", "processing.py", "    psd /= tseries.n_samples\n\n
 B("C17", "mean-w-squared", "processing.py", "window_scaling_factor = np.mean(window.amplitude**2)", "window_scaling_factor = np.mean(window.amplitude)**2")
 B("C17", "derivative-without-j", "instrument_response.py", "transfer_funtion = 2*np.pi*frq*1j", "transfer_funtion = 2*np.pi*frq")
 B("C17", "keys-crossed", "processing.py", "    return dict(ns=Psd(fft_frq, psd_ns),\n                ew=Psd(fft_frq, psd_ew),", "    return dict(ns=Psd(fft_frq, psd_ew),\n                ew=Psd(fft_frq, psd_ns),")
+B("C17", "nextpow2-nearest", "processing.py", '    power_of_two = minimum_power_of_two\n    while True:\n        if power_of_two > n:\n            return power_of_two\n        power_of_two *= 2\n', "    return max(2**int(np.round(np.log2(n))), minimum_power_of_two)\n")
+N("C17", "nextpow2-ceil-plus-one", "processing.py", '    power_of_two = minimum_power_of_two\n    while True:\n        if power_of_two > n:\n            return power_of_two\n        power_of_two *= 2\n', "    return max(2**(int(np.floor(np.log2(n))) + 1), minimum_power_of_two)\n")
 N("C17", "factor-order", "processing.py", "    psd /= window_scaling_factor\n\n    # scale by number of samples;\n    # Welch (1967) shows (1/L)**2 * L scaling for I_{k} simplify to 1/L.\n    psd /= tseries.n_samples", "    psd /= tseries.n_samples\n    psd /= window_scaling_factor")
 
 # ----------------------------------------------------------------------------- C18
